@@ -98,7 +98,10 @@ type csvRecordsWriter struct {
 }
 
 func (w *csvRecordsWriter) Write(record []string) error {
-	w.records = append(w.records, record)
+	// keep a copy: with ReuseRecord the reader overwrites the slice it returned on its next Read
+	kept := make([]string, len(record))
+	copy(kept, record)
+	w.records = append(w.records, kept)
 
 	return nil
 }
